@@ -737,7 +737,6 @@ def _geo_checks(dest, inst, tmpl_objs, rot, org, where):
             check(_near(list(getattr(v1, k)), _xfp(list(getattr(v0, k)), m, (0, 0, 0))), f"{where}: disp {k} rotated exactly once",
                   list(getattr(v1, k)), list(getattr(v0, k)))
         check(v1.distance == v0.distance and v1.alpha == v0.alpha, f"{where}: disp distance/alpha")
-        check(v1.normal is not v0.normal and v1.offset is not v0.offset and v1.offset_norm is not v0.offset_norm, f"{where}: disp vectors shared with the template")
     # texture lock on the displacement face for a probe point
     x = [3.0, -5.0, 7.0]
     xp = _xfp(x, m, org)
@@ -899,26 +898,25 @@ def obligations(tier):
                     desc="EntityFixup.substitute(text, '') == documented longest-match scanner on 13 skeletons, symbolic value of $t, "
                          "tables {}, {t}, {t,tt}", bound="value length exact per slice"))
     obls.append(Obl("substitute.witness", MOD, "h_substitute_w", slices=[{"n": 1, "table": 1}], budget_s=120, per_path_s=60, witness=True))
-    sym = [(n, m) for n in ([0, 1] if q else [0, 1, 2]) for m in ([1] if q else [0, 1, 2])]
-    obls.append(Obl("collapse_sym", MOD, "h_collapse_sym", slices=[{"n": n, "m": m} for n, m in sym], budget_s=900 if q else 2400, per_path_s=120,
-                    desc="collapse_one histories (A, other template, B in solver-chosen order): names/outputs/$vars/nested fixups per oracle, "
-                         "templates' text unchanged after each collapse; instance name and fixup value symbolic",
-                    bound="exact lengths per slice"))
-    obls.append(Obl("collapse_sym.witness", MOD, "h_collapse_sym_w", slices=[{"n": 1, "m": 1}], budget_s=300, per_path_s=120, witness=True))
+    sym = [(n, m) for n in ([0, 1] if q else [0, 1, 2]) for m in ([0, 1] if q else [0, 1, 2])]
+    obls.append(Obl("collapse_sym", MOD, "h_collapse_sym",
+                    slices=[{"n": n, "m": m, "style": st, "order": od} for n, m in sym for st in (0, 1, 2) for od in (False, True)],
+                    budget_s=600 if q else 2400, per_path_s=120,
+                    desc="collapse_one histories (A, other template, B; both orders): names/outputs/$vars/nested fixups per oracle, "
+                         "templates' text unchanged after each collapse; instance name and fixup value symbolic (ASCII)",
+                    bound="exact lengths per slice; style and order per slice"))
+    obls.append(Obl("collapse_sym.witness", MOD, "h_collapse_sym_w", slices=[{"n": 1, "m": 1, "style": 0, "order": False}], budget_s=300, per_path_s=120, witness=True))
     obls.append(Obl("collapse_pick", MOD, "h_collapse_pick", slices=[{"a": a, "b": b} for a in range(len(N1S)) for b in range(len(N2S))],
                     budget_s=900 if q else 2400, per_path_s=120,
                     desc="same body with hashed names (targetnames, instance name) by symbolic index from finite lists",
                     bound=f"{len(INAMES)} instance names x {len(VALS)} values x 3x3 entity names x 3 styles x 2 orders (enumeration)"))
-    if q:
-        pl = [{"r0": r, "r1": (r + 3) % len(ROTS), "g1": 1} for r in range(len(ROTS))]
-    else:
-        pl = [{"r0": r, "r1": s} for r in range(len(ROTS)) for s in range(len(ROTS))]
+    pl = [{"r0": r} for r in range(len(ROTS))]
     obls.append(Obl("place", MOD, "h_place", slices=pl, budget_s=900 if q else 2400, per_path_s=120,
                     desc="entity origin/angles/vector keyvalues, overlay side list, brush entity and displacement geometry at placements from "
                          "finite lists; template unchanged; repeated placement gives the same text",
                     bound="7 rotations x 3 origins (enumeration), tolerance 1e-3"))
     obls.append(Obl("place.witness", MOD, "h_place_w", slices=[{"r0": 1, "g0": 1, "r1": 0, "g1": 0}], budget_s=300, per_path_s=120, witness=True))
-    obls.append(Obl("terminate", MOD, "h_terminate", slices=[{"limit": k} for k in ([1, 2, 3] if q else [1, 2, 3, 4])], budget_s=900 if q else 2400,
+    obls.append(Obl("terminate", MOD, "h_terminate", slices=[{"limit": k} for k in [1, 2, 3, 4]], budget_s=900 if q else 2400,
                     per_path_s=120, desc="collapse_all over all 16 inclusion graphs on two files: returns or RecursionError, exact entity count, "
                                          "each file parsed once", bound="2 files, recur_limit per slice"))
     obls.append(Obl("terminate.witness", MOD, "h_terminate_w", slices=[{"limit": 2}], budget_s=300, per_path_s=120, witness=True))
